@@ -677,7 +677,217 @@ def scenario(ins, ops):
     return ' '.join(out) if out else '-'
 
 
+# ---------------------------------------------------------------- library operations that re-sign (request mut)
+SEQ_CFG = {'fin': 0xffffffff, 'nf': 0xfffffffe, 'rbf': 0xffffffff, 'relb': 10, 'relt': (1 << 22) + 3, 'zero': 0}
+
+
+def prev_of(i):
+    return hashlib.sha256(b'prev-%d' % i).digest()
+
+
+def build_priv(specs, cfg, lock, first=0, witness_type=None):
+    """like build(), but every input holds the PRIVATE keys of its first m listed keys (what sign_and_update() signs with)
+    and the transaction starts in the requested sequence / locktime configuration"""
+    segwit = any(TYPES[ty][1] != 'legacy' for ty, _, _ in specs)
+    t = Transaction(network='bitcoin', witness_type=witness_type or ('segwit' if segwit else 'legacy'), locktime=lock,
+                    replace_by_fee=(cfg == 'rbf'))
+    for i, (ty, m, ks) in enumerate(specs):
+        st, wt = TYPES[ty]
+        multi = ty in ('sh', 'wsh', 'shwsh')
+        keys = [priv(k) if p < m else pub(k) for p, k in enumerate(ks)]
+        t.add_input(prev_of(first + i), first + i, keys=keys, script_type=st, sigs_required=(m if multi else None),
+                    witness_type=wt, value=100000 + first + i, sequence=SEQ_CFG[cfg])
+    return t
+
+
+def resync(t, ctx, book):
+    """the spent outputs in the order the inputs have NOW (shuffle / merge move them)"""
+    ctx.specs = [book[bytes(i.prev_txid)][0] for i in t.inputs]
+    ctx.values = [i.value for i in t.inputs]
+
+
+def mut(ins, cfg, steps):
+    cfg, _, lock = cfg.partition(':')
+    specs = []
+    for s in ins.split(';'):
+        ty, m, ks = s.split('/')
+        specs.append((ty, int(m), ks.split(',')))
+    t = build_priv(specs, cfg, int(lock or 0))
+    t.add_output(60000, address=OUT_ADDR[0])
+    t.add_output(30000 + len(specs) * 100, address=OUT_ADDR[1], change=True)
+    ctx = Ctx(specs)
+    book = {bytes(i.prev_txid): (sp, i.value) for i, sp in zip(t.inputs, specs)}
+    t.sign()
+    t.update_totals()
+    out = []
+    nmerge = 0
+    for o in steps.split(';'):
+        f = o.split('/')
+        try:
+            if f[0] == 'ltb':
+                t.set_locktime_blocks(int(f[1]))
+            elif f[0] == 'ltt':
+                t.set_locktime_time(int(f[1]))
+            elif f[0] == 'lrb':
+                t.set_locktime_relative_blocks(int(f[2]), input_index_n=int(f[1]))
+            elif f[0] == 'lrt':
+                t.set_locktime_relative_time(int(f[2]), input_index_n=int(f[1]))
+            elif f[0] == 'su':
+                t.sign_and_update(index_n=int(f[1]) if len(f) > 1 else None)
+            elif f[0] == 'bf':
+                t.bumpfee(extra_fee=int(f[1]))
+            elif f[0] == 'ao':
+                t.add_output(int(f[1]), address=OUT_ADDR[0])
+                t.sign(replace_signatures=True)
+            elif f[0] == 'sh':
+                import random as _r
+                _r.seed(int(f[1]))
+                t.shuffle()
+                t.sign_and_update()
+            elif f[0] == 'mg':
+                nmerge += 1
+                sp = [('pkh' if t.witness_type == 'legacy' else 'wpkh', 1, ['%dc' % (8 + nmerge)])]
+                t2 = build_priv(sp, 'fin', 0, first=10 + nmerge, witness_type=t.witness_type)
+                t2.add_output(50000, address=OUT_ADDR[1])
+                t2.sign()
+                book[bytes(t2.inputs[0].prev_txid)] = (sp[0], t2.inputs[0].value)
+                import random as _r
+                _r.seed(int(f[1]))
+                t.merge_transaction(t2)
+            elif f[0] == 'ut':
+                t.update_totals()
+            else:
+                return 'BADREQ'
+        except Exception as e:
+            out.append('ME:' + type(e).__name__)
+            continue
+        resync(t, ctx, book)
+        try:
+            lib = 'T' if t.verify() else 'F'
+        except Exception as e:
+            lib = 'E'
+        rawv = broadcast_verdict(t, ctx)
+        try:
+            par = parse_and_observe(t.raw(), ctx)[1:2]
+        except Exception as e:
+            par = 'E'
+        out.append('M%s/%s/%s' % (lib, rawv, par))
+    return ' '.join(out) if out else '-'
+
+
+# ---------------------------------------------------------------- signature argument forms (request sigf)
+_lead_sigs = {}
+
+
+def lead_ok(lead, r, s_):
+    if lead == 'any':
+        return True
+    v = r if lead[0] == 'r' else s_
+    top = v >> 248
+    return {'30': top == 0x30, '00': top == 0, 'hi': top >= 0x80, '7f': 0x30 < top < 0x80}[lead[1:]]
+
+
+def own_sign_lead(digest, i, lead):
+    """ECDSA made HERE with a searched nonce: r (or s) gets the requested leading byte (low s as Bitcoin requires)"""
+    key = (digest, i, lead)
+    if key not in _lead_sigs:
+        d, z = secret(i), int.from_bytes(digest, 'big')
+        ctr = 0
+        while True:
+            k = int.from_bytes(hashlib.sha256(b'verif-c02-nonce' + digest + struct.pack('<II', i, ctr)).digest(), 'big') % (N - 1) + 1
+            ctr += 1
+            r = get_public_key(k, CURVE).x % N
+            if not r or (lead[0] == 'r' and not lead_ok(lead, r, 0)):
+                continue
+            s_ = pow(k, -1, N) * (z + r * d) % N
+            if not s_:
+                continue
+            if s_ > N // 2:
+                s_ = N - s_
+            if lead_ok(lead, r, s_):
+                break
+        _lead_sigs[key] = (r, s_)
+    return _lead_sigs[key]
+
+
+def sig_form(form, r, s_, k):
+    rs = r.to_bytes(32, 'big') + s_.to_bytes(32, 'big')
+    if form == 'derb':
+        return der(r, s_) + b'\x01'
+    if form == 'derh':
+        return (der(r, s_) + b'\x01').hex()
+    if form == 'rsb':
+        return rs
+    if form == 'rsh':
+        return rs.hex()
+    sg = Signature(r, s_, public_key=pub(k), hash_type=1)
+    if form == 'obj':
+        return sg
+    if form == 'objnokey':
+        return Signature(r, s_)
+    if form == 'libhex':
+        return sg.hex()
+    if form == 'libbytes':
+        return sg.bytes()
+    if form == 'libder':
+        return sg.as_der_encoded()
+    if form == 'libderh':
+        return sg.as_der_encoded(as_hex=True)
+    raise ValueError(form)
+
+
+def sigf(ins, lead, form, ctor):
+    """every input rebuilt from PUBLIC keys + signatures handed over in one argument form; the signatures are made here
+    over the consensus digest of the unsigned transaction (own digest code) with a nonce searched for the leading byte"""
+    from bitcoinlib.transactions import Input
+    t, ctx = build(ins)
+    tx, _ = spec_tx(t.raw(), ctx)
+    per = []
+    for i, (ty, m, ks) in enumerate(ctx.specs):
+        digest = SPEC.consensus_sighash(tx, i, 1)[1]
+        per.append([(k,) + own_sign_lead(digest, tok(k)[0], lead) for k in ks[:m]])
+    if form == 'asdict':
+        # exported by the library itself: a first transaction holding Signature objects, Input.as_dict()['signatures']
+        t0, _ = build(ins)
+        for inp, l in zip(t0.inputs, per):
+            inp.signatures = [Signature(r, s_, public_key=pub(k), hash_type=1) for k, r, s_ in l]
+        handed = [inp.as_dict()['signatures'] for inp in t0.inputs]
+    else:
+        handed = [[sig_form(form, r, s_, k) for k, r, s_ in l] for l in per]
+    segwit = t.witness_type
+    inputs = []
+    t3 = Transaction(network='bitcoin', witness_type=segwit)
+    for i, (ty, m, ks) in enumerate(ctx.specs):
+        st, wt = TYPES[ty]
+        kw = dict(keys=[pub(k) for k in ks], script_type=st, sigs_required=(m if ty in ('sh', 'wsh', 'shwsh') else None),
+                  witness_type=wt, value=100000 + i, signatures=(handed[i][0] if ctor == 'one' else handed[i]))
+        if ctor == 'inp':
+            inputs.append(Input(prev_of(i), i, index_n=i, network='bitcoin', **kw))
+        else:
+            t3.add_input(prev_of(i), i, **kw)
+    if ctor == 'inp':
+        t3 = Transaction(inputs=inputs, network='bitcoin', witness_type=segwit)
+    t3.add_output(60000, address=OUT_ADDR[0])
+    t3.add_output(30000, address=OUT_ADDR[1])
+    kept = '.'.join(str(len(inp.signatures)) for inp in t3.inputs)
+    try:
+        lib = 'T' if t3.verify() else 'F'
+    except Exception as e:
+        lib = 'E'
+    rawv = broadcast_verdict(t3, ctx)
+    try:
+        par = parse_and_observe(t3.raw(), ctx)[1:2]
+    except Exception:
+        par = 'E'
+    return 'F%s/%s/%s/%s' % (lib, rawv, par, kept)
+
+
 def dispatch(t):
+    if t[0] in ('mut', 'sigf'):
+        try:
+            return mut(t[1], t[2], t[3]) if t[0] == 'mut' else sigf(t[1], t[2], t[3], t[4])
+        except Exception as e:
+            return 'CRASH %s %s' % (type(e).__name__, str(e)[:80].replace('\n', ' '))
     if t[0] == 'scn':
         try:
             return scenario(t[1], t[2])
